@@ -48,8 +48,15 @@ package keeper
 //@   invariant true
 //@ loop #2
 //@   invariant true
+// C17 (the booked claims never exceed the amount moved, for any number of stakers, assets and AVSs per operator): the
+// total power the fractions are taken of is the sum of the powers the listed stakers are paid with, and a staker is
+// listed once: every step of the collecting loop moves the total by exactly what it moves that staker's entry of the
+// power map, and lengthens the list exactly when the staker had no entry yet.
+//@ define atsPow(m, k) = ite(has(m, k), val(m[k]), 0)
 //@ loop #3
 //@   invariant true
+//@   step[C17.ats.once] val(curTotalStakersPowers) - val(prev_curTotalStakersPowers) == atsPow(stakersPowerMap, staker) - old(atsPow(stakersPowerMap, staker)) &&
+//@        len(globalStakerAddressList) - len(prev_globalStakerAddressList) == ite(!old(has(stakersPowerMap, staker)) && has(stakersPowerMap, staker), 1, 0)
 //@ loop #4
 //@   invariant[C17.ats.sum] dcv(remaining) == dcv(rewardToAllStakers) - (ghost(staked) - old(ghost(staked)))
 //@   invariant *feePool == old(*feePool)
